@@ -53,6 +53,14 @@ class RTCMMessage:
         self._payload = payload
         if self._payload is None:
             raise RTCMMessageError("Payload must be specified")
+        # payload must hold the 12-bit message number (and 8-bit sub-type for 4076)
+        if len(self._payload) < 2 or (
+            len(self._payload) < 3
+            and (self._payload[0] << 4 | self._payload[1] >> 4) == 4076
+        ):
+            raise RTCMMessageError(
+                f"Payload too short to contain message identity: {self._payload}"
+            )
         self._payloadi = int.from_bytes(self._payload, "big")  # payload as int
         self._payblen = len(self._payload) * 8  # length of payload in bits
         self._labelmsm = labelmsm
